@@ -40,6 +40,15 @@ class FQ:
         """CFG node that evaluates AST node `a` (first copy if finally bodies were duplicated)."""
         if id(a) in self._owner:
             return self._owner[id(a)]
+        if isinstance(a, (ast.If, ast.While)):
+            t = a.test
+            while isinstance(t, (ast.BoolOp, ast.UnaryOp)):
+                t = t.values[0] if isinstance(t, ast.BoolOp) else t.operand
+                if isinstance(t, ast.UnaryOp) and not isinstance(t.op, ast.Not):
+                    break
+            return self.node_of(t)
+        if isinstance(a, ast.Try) and a.body:
+            return self.node_of(a.body[0])
         raise AnalysisError(f'{self.fi.fq}: no CFG node for `{norm_src(a)[:60]}`')
 
     def has_node(self, a: ast.AST) -> bool:
